@@ -1012,6 +1012,80 @@ Proof.
   intros r x Hr. apply residue_classes; lia.
 Qed.
 
+(* ---------------------------------------------------------------- D7. counting preimages *)
+Definition zrange (n : Z) : list Z := map Z.of_nat (seq 0 (Z.to_nat n)).
+(* number of draws x in 0..B with x mod m = r *)
+Definition preimages (m r B : Z) : nat :=
+  length (filter (fun x => x mod m =? r) (zrange (B + 1))).
+
+Lemma filter_map_length {A B} (f : B -> bool) (g : A -> B) l :
+  length (filter f (map g l)) = length (filter (fun x => f (g x)) l).
+Proof. induction l as [|x l IH]; cbn; [reflexivity|]. destruct (f (g x)); cbn; now rewrite IH. Qed.
+Lemma count_eq_seq rr n : forall a,
+  length (filter (fun j => j =? rr)%nat (seq a n)) =
+  if ((a <=? rr) && (rr <? a + n))%nat then 1%nat else 0%nat.
+Proof.
+  induction n as [|n IH]; intros a; cbn [seq filter].
+  - replace (rr <? a + 0)%nat with (rr <? a)%nat by (f_equal; lia).
+    destruct (a <=? rr)%nat eqn:E1, (rr <? a)%nat eqn:E2; try reflexivity.
+    apply Nat.leb_le in E1. apply Nat.ltb_lt in E2. lia.
+  - rewrite <- Nat.add_succ_comm. destruct (a =? rr)%nat eqn:E.
+    + apply Nat.eqb_eq in E. subst a. cbn [length]. rewrite IH.
+      replace (S rr <=? rr)%nat with false by (symmetry; apply Nat.leb_gt; lia).
+      replace (rr <=? rr)%nat with true by (symmetry; apply Nat.leb_le; lia).
+      replace (rr <? S rr + n)%nat with true by (symmetry; apply Nat.ltb_lt; lia). reflexivity.
+    + rewrite IH. apply Nat.eqb_neq in E.
+      destruct (S a <=? rr)%nat eqn:E1, (a <=? rr)%nat eqn:E2; try reflexivity;
+        [apply Nat.leb_le in E1; apply Nat.leb_gt in E2; lia
+        |apply Nat.leb_gt in E1; apply Nat.leb_le in E2; lia].
+Qed.
+
+Lemma count_period m r k :
+  0 < m -> 0 <= r < m ->
+  length (filter (fun i => Z.of_nat i mod m =? r) (seq (k * Z.to_nat m) (Z.to_nat m))) = 1%nat.
+Proof.
+  intros Hm Hr. replace (k * Z.to_nat m)%nat with (k * Z.to_nat m + 0)%nat by lia.
+  rewrite seq_offset, filter_map_length.
+  rewrite (filter_ext_in _ (fun j => j =? Z.to_nat r)%nat).
+  - rewrite count_eq_seq. cbn [Nat.leb andb Nat.add].
+    replace (Z.to_nat r <? Z.to_nat m)%nat with true by (symmetry; apply Nat.ltb_lt; lia). reflexivity.
+  - intros j Hj. apply in_seq in Hj. cbv beta.
+    replace (Z.of_nat (k * Z.to_nat m + j)) with (Z.of_nat j + Z.of_nat k * m) by lia.
+    rewrite Z.mod_add, Z.mod_small by lia.
+    destruct (j =? Z.to_nat r)%nat eqn:E.
+    + apply Nat.eqb_eq in E. apply Z.eqb_eq. lia.
+    + apply Nat.eqb_neq in E. apply Z.eqb_neq. lia.
+Qed.
+
+Lemma count_periods m r : 0 < m -> 0 <= r < m -> forall q : nat,
+  length (filter (fun i => Z.of_nat i mod m =? r) (seq 0 (q * Z.to_nat m))) = q.
+Proof.
+  intros Hm Hr. induction q as [|q IH]; [reflexivity|].
+  replace (S q * Z.to_nat m)%nat with (q * Z.to_nat m + Z.to_nat m)%nat by lia.
+  rewrite seq_app, filter_app, app_length, IH. cbn [Nat.add]. rewrite count_period by lia. lia.
+Qed.
+
+(* among the draws 0..q*m-1 every residue has exactly q preimages *)
+Theorem preimages_count m q r : 0 < m -> 0 <= q -> 0 <= r < m -> preimages m r (q * m - 1) = Z.to_nat q.
+Proof.
+  intros Hm Hq Hr. unfold preimages, zrange. rewrite filter_map_length.
+  replace (Z.to_nat (q * m - 1 + 1)) with (Z.to_nat q * Z.to_nat m)%nat by nia.
+  apply count_periods; lia.
+Qed.
+
+Theorem u32_preimages_equal m r r' : 0 < m -> 0 <= r < m -> 0 <= r' < m ->
+  preimages m r (u32_bound m) = preimages m r' (u32_bound m) /\ (0 < preimages m r (u32_bound m))%nat.
+Proof.
+  intros Hm Hr Hr'. destruct (u32_rejection_unbiased m Hm) as (q & Hq & HB & _ & _).
+  replace (u32_bound m) with (q * m - 1) by lia. rewrite !preimages_count by lia. lia.
+Qed.
+Theorem u64_preimages_equal m r r' : 0 < m < 2 ^ 64 -> 0 <= r < m -> 0 <= r' < m ->
+  preimages m r (in_range_bound m) = preimages m r' (in_range_bound m) /\ (0 < preimages m r (in_range_bound m))%nat.
+Proof.
+  intros Hm Hr Hr'. destruct (u64_rejection_unbiased m Hm) as (q & Hq & HB & _ & _).
+  replace (in_range_bound m) with (q * m - 1) by lia. rewrite !preimages_count by lia. lia.
+Qed.
+
 (* all evaluator instances fresh *)
 Theorem prf_pure_fresh aes fuel (h : list (nat * prf_call)) :
   run_history aes fuel h [] = map (fun ic => spec_call aes fuel (snd ic)) h.
